@@ -494,3 +494,107 @@ Proof.
     destruct Ha. }
   vm_compute. repeat split; reflexivity.
 Qed.
+
+(** ** Part 5 (round 5): histories that also contain the conversion messages.  Fee-token swaps, conversions to and
+    from ERC20, the EVM hook, EVM-mode switches (harness double) and beacon upgrades touch only parts of the
+    token group's state that are OUTSIDE the exported genesis — bank ledger and supply, the ERC20 ledger [erc20]
+    (it lives in the EVM), [evm_mode], [registry] — so [K] (and with it the genesis-level invariant) survives them
+    whatever they do.  NOT covered: [Deploy] (it writes a token's Contract field and may create a token under an
+    ERC20-style name; the genesis-level model carries no contract field and the harness reports a token that has
+    one).  Without a deployment no token has a contract, so the conversions are all refused; the statement does not
+    need that. *)
+Definition conv_msg (m : M.msg) : Prop :=
+  match m with
+  | M.SwapFee _ _ _ _ | M.ToErc20 _ _ _ _ | M.FromErc20 _ _ _ _ | M.EvmMode _ | M.HookToNative _ _ _ _ | M.UpgradeErc20 _ _ => True
+  | _ => False
+  end.
+Definition link_msg (m : M.msg) : Prop := MW.c09_msg m \/ conv_msg m.
+
+Lemma handle_K_conv s m s' : K s -> conv_msg m -> M.handle s m = M.ROk s' -> K s'.
+Proof.
+  intros Hk Hm H. destruct m; simpl in Hm; try contradiction; simpl in H.
+  - (* SwapFee *) eapply K_bank_only; [eapply MP.do_swapfee_only; eassumption|exact Hk].
+  - (* ToErc20 *)
+    apply MC.do_to_erc20_inv in H. destruct H as (t & s1 & s2 & _ & _ & _ & Hs & Hb & ->).
+    assert (K2 : K s2).
+    { eapply K_bank_only; [eapply MB.bank_burn_only; eassumption|]. eapply K_bank_only; [eapply MB.bank_send_only; eassumption|exact Hk]. }
+    exact K2.
+  - (* FromErc20 *)
+    apply MC.do_from_erc20_inv in H. destruct H as (t & s2 & _ & _ & _ & _ & Hmi & Hp).
+    eapply K_bank_only; [eapply MB.bank_pay_only; eassumption|]. eapply K_bank_only; [eapply MB.bank_mint_only; eassumption|]. exact Hk.
+  - (* EvmMode *) inversion H. exact Hk.
+  - (* HookToNative *)
+    apply MP.do_hook_inv in H. destruct H as (sym0 & t & s2 & _ & _ & _ & _ & _ & _ & Hmi & Hp).
+    eapply K_bank_only; [eapply MB.bank_pay_only; eassumption|]. eapply K_bank_only; [eapply MB.bank_mint_only; eassumption|]. exact Hk.
+  - (* UpgradeErc20 *) apply MP.do_upgrade_inv in H. subst s'. exact Hk.
+Qed.
+
+Lemma step_K2 s m : MP.IdInv s -> link_msg m -> K s -> K (M.step s m).
+Proof.
+  intros I [Hm|Hm] Hk; [exact (step_K s m I Hm Hk)|].
+  destruct (MP.step_cases s m) as [(s' & E & ->)|[_ ->]]; [|exact Hk].
+  apply MP.exec_inv in E. destruct E as [_ E]. exact (handle_K_conv s m s' Hk Hm E).
+Qed.
+
+Lemma run_K2 ms : forall s, MP.IdInv s -> Forall link_msg ms -> K s -> K (M.run s ms).
+Proof.
+  induction ms as [|m ms IH]; intros s I Hms Hk; [exact Hk|]. inversion Hms as [|? ? Hm Hms']; subst.
+  apply IH; [apply MP.step_IdInv; exact I|exact Hms'|apply step_K2; assumption].
+Qed.
+
+Section Hist2.
+  Variables (rs rm : M.name -> Z) (ro : M.acct -> Z) (nlen : Z -> Z).
+  Hypothesis rm_nn : forall n, 0 <= rm n.
+  Hypothesis ro_nn : forall a, 0 <= a -> 0 <= ro a.
+  Hypothesis nlen_ok : forall nm, 0 <= nm -> 0 < nlen nm <= 32.
+  Variable p : M.params.
+  Variable balances : amap (M.acct * M.name) Z.
+  Variable ss : Z.
+  Variable reg : amap M.name (M.name * Z).
+  Variable ms : list M.msg.
+  Hypothesis Hp : pars_good p.
+  Hypothesis Hf : M.p_fee_denom p = M.STAKE.
+  Hypothesis Hb : NoDup (keys balances).
+  Hypothesis Hms : Forall link_msg ms.
+  Let s := M.run (M.genesis p balances ss reg) ms.
+  Hypothesis rs_inj : inj_on rs (map fst (M.tokens s)).
+  Hypothesis rm_inj : inj_on rm (map fst (M.minunits s)).
+
+  Theorem reachable_token_conv : G.invb (abs rs rm ro nlen s) = true.
+  Proof.
+    pose proof (MC.reg_id _ (MC.genesis_RegInv p balances ss reg)) as I0.
+    apply (reachable_token_state rs rm ro nlen s);
+      first [ exact (MP.run_IdInv ms _ I0)
+            | exact (run_WF ms _ I0 (MW.genesis_WF p balances ss reg Hb))
+            | exact (run_K2 ms _ I0 Hms (genesis_K p balances ss reg Hp Hf))
+            | assumption ].
+  Qed.
+
+  Theorem token_history_conv_export_validates : G.validate false (G.export (abs rs rm ro nlen s)) = true.
+  Proof. apply GP.token_export_validates_lemma. exact reachable_token_conv. Qed.
+
+  Theorem token_history_conv_roundtrip : G.import false (G.export (abs rs rm ro nlen s)) = Some (abs rs rm ro nlen s).
+  Proof. apply GP.token_roundtrip. exact reachable_token_conv. Qed.
+End Hist2.
+
+(** non-vacuity: a swap of the fee token, an EVM-mode switch and (refused) conversions between the C09 messages *)
+Example link_token_conv_nonvacuous :
+  let ms := [ M.Issue 0 (0, 3) (6, 4) 1 6 11 11 true; M.EvmMode 2; M.ToErc20 0 1 (6, 4) 5; M.FromErc20 1 0 (6, 4) 5;
+              M.SwapFee 0 (-2) (6, 4) 10; M.UpgradeErc20 M.GOV 7; M.HookToNative 1 0 1 3; M.Burn 0 (6, 4) 500000 ] in
+  let s := M.run (M.genesis ex_p ex_bal 2000000000 []) ms in
+  Forall link_msg ms
+  /\ inj_on ex_num (map fst (M.tokens s)) /\ inj_on ex_num (map fst (M.minunits s))
+  /\ G.burned (ex_abs s) = [(6, 500000)] /\ G.invb (ex_abs s) = true.
+Proof.
+  cbv zeta. split.
+  { repeat (apply Forall_cons; [first [right; exact Logic.I | left; simpl; unfold MW.ordinary, M.MODULE, M.FEECOL; first [exact Logic.I | lia]]|]). apply Forall_nil. }
+  split.
+  { intros a b Ha Hb. vm_compute in Ha, Hb.
+    repeat (destruct Ha as [<-|Ha]; [repeat (destruct Hb as [<-|Hb]; [intros H; first [reflexivity | vm_compute in H; discriminate H]|]); destruct Hb|]).
+    destruct Ha. }
+  split.
+  { intros a b Ha Hb. vm_compute in Ha, Hb.
+    repeat (destruct Ha as [<-|Ha]; [repeat (destruct Hb as [<-|Hb]; [intros H; first [reflexivity | vm_compute in H; discriminate H]|]); destruct Hb|]).
+    destruct Ha. }
+  vm_compute. split; reflexivity.
+Qed.
